@@ -159,6 +159,11 @@ func genOptConf1(rng *rand.Rand, v6 bool) (string, []string) {
 			if ones == 0 {
 				ip = model.U32IP(0)
 			}
+			if rng.Intn(4) == 0 {
+				// written the way `ip addr` prints it: an address of the subnet with its prefix length (the
+				// option carries the subnet number: the destination descriptor of RFC 3442 has no host bits)
+				ip = model.U32IP(rng.Uint32())
+			}
 			a = append(a, fmt.Sprintf("%s/%d,%s", ip, ones, randIP4(rng)))
 		}
 		return "staticroute", a
